@@ -248,7 +248,40 @@ def veq(a, b):
             else:
                 conj.append(S.Not(inb))
         return S.And(conj)
+    if isinstance(a, MapV):
+        if not isinstance(b, MapV):
+            return S.FALSE
+        ka = {key_repr(e[0]): e for e in a.entries}
+        kb = {key_repr(e[0]): e for e in b.entries}
+        conj = []
+        for k in set(ka) | set(kb):
+            x, y = ka.get(k), kb.get(k)
+            if x is None or y is None:
+                conj.append(S.Not((x or y)[1]))
+            else:
+                conj.append(S.Eq(x[1], y[1]))
+                if x[2] is not y[2]:
+                    conj.append(S.Implies(x[1], veq(x[2], y[2])))
+        return S.And(conj)
+    if isinstance(a, FifoV):
+        if not isinstance(b, FifoV):
+            return S.FALSE
+        ka = {e[0]: e for e in a.entries}
+        kb = {e[0]: e for e in b.entries}
+        conj = []
+        for k in set(ka) | set(kb):
+            x, y = ka.get(k), kb.get(k)
+            if x is None or y is None:
+                e = x or y
+                conj.append(S.Not(S.And(e[1], S.Not(e[2]))))
+            else:
+                conj.append(S.Eq(S.And(x[1], S.Not(x[2])), S.And(y[1], S.Not(y[2]))))
+                if x[3] is not y[3]:
+                    conj.append(S.Implies(S.And(x[1], S.Not(x[2])), veq(x[3], y[3])))
+        return S.And(conj)
     if a is UNDEF or b is UNDEF:
+        if a is b:
+            return S.TRUE
         raise Unsupported('veq on UNDEF')
     return S.boolc(a == b)
 
